@@ -416,7 +416,13 @@ meta("C16", level="fault_enumeration",
 
 @plan("C08")
 def _c08(bindir, tier, seed):
-    return q_jobs(bindir, "C08", tier, seed, miri=True, storm=True)
+    jobs = q_jobs(bindir, "C08", tier, seed, miri=True, storm=True)
+    # backlogs of 70 000 (and, in the first shard, 2^20 + 60 000) metrics behind a blocked sink, then released: handed over
+    # one at a time, every producer's own order kept - whatever the library does about a large backlog
+    quick = tier == QUICK
+    jobs += shards(bindir, "queue_conc", "C08-blocked", seed, 4 if quick else NCPU, ["--property", "C08", "--mode", "blocked", "--cases", "6" if quick else "400", "--backlogs"], 3400,
+                   per_shard_args=lambda i: ["--huge-first"] if (i == 0 and not quick) else [])
+    return jobs
 
 
 @plan("C09")
